@@ -79,7 +79,7 @@ def goodOrders : List (List Field) :=
 def goodB (F : Facts) : Bool :=
   F.handleHoldsArc && F.constsCloned && F.fnsCloned
     && decide (F.freeSites = [FreeSite.wrapperDrop]) && goodOrders.contains F.moduleFields
-    && F.closureKeepsArc && F.dataHolders.all Holder.heldByHandles
+    && F.closureKeepsArc && F.dataHolders.all Holder.heldByHandles && F.testHoldsHandle
 
 structure Good (F : Facts) : Prop where
   holds : F.handleHoldsArc = true
@@ -89,10 +89,11 @@ structure Good (F : Facts) : Prop where
   order : F.moduleFields ∈ goodOrders
   closure : F.closureKeepsArc = true
   data : F.dataHolders.all Holder.heldByHandles = true
+  test : F.testHoldsHandle = true
 
 theorem good_of_goodB {F : Facts} (h : goodB F = true) : Good F := by
   simp only [goodB, Bool.and_eq_true, decide_eq_true_eq, List.contains_iff_mem] at h
-  exact ⟨h.1.1.1.1.1.1, h.1.1.1.1.1.2, h.1.1.1.1.2, h.1.1.1.2, h.1.1.2, h.1.2, h.2⟩
+  exact ⟨h.1.1.1.1.1.1.1, h.1.1.1.1.1.1.2, h.1.1.1.1.1.2, h.1.1.1.1.2, h.1.1.1.2, h.1.1.2, h.1.2, h.2⟩
 
 /-! ### primitive effects, projection by projection -/
 
